@@ -62,7 +62,10 @@ func (h *NTLMAuth) Authenticate(message *auth.NtlmRequest) (r *auth.NtlmResponse
 	c := h.getContext(message.Session)
 	err = c.Authenticate(message.NtlmMessage, r)
 
-	if err != nil || r.Authenticated {
+	// a context only lives from the challenge to the one authenticate message
+	// that answers it: the NTLM session caches the keys of the first user it
+	// verifies, so a second attempt must not be checked against them
+	if err != nil || r.NtlmMessage == "" {
 		h.removeContext(message.Session)
 	}
 
